@@ -520,7 +520,7 @@ class Grammar(Model):
         # NOTE: before any analysis, which looks rules up by name
         missing: set[str] = self.missing_rules(set(self.rulemap))
         if missing:
-            msg = ' '.join(missing)
+            msg = ' '.join(sorted(missing))  # NOTE: a set: its order follows the hash seed
             raise GrammarError('unknown rules, no parser generated: ' + msg)
 
         self.link(self)
